@@ -18,13 +18,13 @@ ASSUMPTIONS = ['statistics targets (mean/variance/spread/sum) are reached within
                'impose_as pair sets are forests when an offset is used (acyclic, one parent per tracked entry)',
                'unique and clip=False are randomised: idempotence is "a second application changes nothing"']
 CLASSES = {
-    'bounds': {'quick': 19200, 'thorough': 120000},
-    'grid': {'quick': 24000, 'thorough': 150000},       # discrete, integers, rounded, precision
-    'unique': {'quick': 7200, 'thorough': 45000},
-    'order': {'quick': 14400, 'thorough': 90000},      # sorting, monotonic
-    'pin': {'quick': 14400, 'thorough': 90000},        # impose_at, impose_as
-    'stats': {'quick': 9600, 'thorough': 60000},       # with_mean/variance/std/spread, normalized
-    'rewrite': {'quick': 14400, 'thorough': 90000},    # masked, partial, synchronized, clipped, suppressed
+    'bounds': {'quick': 19200, 'thorough': 192000},
+    'grid': {'quick': 24000, 'thorough': 240000},       # discrete, integers, rounded, precision
+    'unique': {'quick': 7200, 'thorough': 72000},
+    'order': {'quick': 14400, 'thorough': 144000},      # sorting, monotonic
+    'pin': {'quick': 14400, 'thorough': 144000},        # impose_at, impose_as
+    'stats': {'quick': 9600, 'thorough': 96000},       # with_mean/variance/std/spread, normalized
+    'rewrite': {'quick': 14400, 'thorough': 144000},    # masked, partial, synchronized, clipped, suppressed
 }
 MIN_EVENTS = {'quick': {'assert:target': 6000, 'assert:frame': 6000, 'assert:idem': 5000, 'assert:type': 5000}}
 ident = lambda x: x
